@@ -32,6 +32,7 @@ CODES = {
     1: "model does not predict the command / reconcile",
     10: "a command changed something other than its documented annotation or condition",
     11: "a command acted although its precondition does not hold",
+    13: "after `canary fail` the replica set does not read as failed (an earlier Canary-Failed condition that is not True shadows the one written): no rollback follows",
     12: "the annotations a command leaves do not mean what the command says in the controllers' reading (e.g. paused while canary-unpaused stays true)",
     # the reconciles that follow a command: monitors of C08 (+20), C05 (+30), C07 (+50)
     30: "a pod was deleted for updating while rolling-update-paused is true",
@@ -182,7 +183,63 @@ def generate(rng, tier, stats):
         c["ops"] = ops
         wprop.bump(stats, "command overtaken by a template change", cm)
         out.append(c)
+    # (d) a re-used replica set as the canary: A active, B canary, B validated, and - while A still owns pods - the template
+    # goes back to A: A (which has been the active replica set before) is now the canary of B; the commands apply to it
+    for _ in range(10 if tier == "quick" else 150):
+        n = rng.choice([3, 4])
+        c = histgen.gen_history(rng, None, n=n, canary=True, length=0)
+        e = [o for o in c["objects"] if o["kind"] == "ExtendedDaemonSet"][0]
+        can = e["spec"]["strategy"]["canary"]
+        can.pop("duration", None)
+        can.pop("noRestartsDuration", None)
+        can["validationMode"] = "manual"
+        can["replicas"] = 1
+        e["spec"]["strategy"]["rollingUpdate"]["maxUnavailable"] = 1
+        e["spec"]["strategy"]["rollingUpdate"]["maxParallelPodCreation"] = 1
+        ops = c["ops"] + histgen.rollout_ops(rng, 3) + [histgen.edit("ExtendedDaemonSet", histgen.NS, histgen.EDS, "image:img:2")]
+        ops += histgen.rollout_ops(rng, 2)
+        ops += [K.cmd("canary_validate", histgen.NS, histgen.EDS), histgen.rec_eds(), histgen.rec_all_ers(rng), histgen.rec_eds()]
+        ops += [histgen.edit("ExtendedDaemonSet", histgen.NS, histgen.EDS, "image:img:1")]
+        ops += histgen.rollout_ops(rng, 2)
+        cm = rng.choice(["canary_fail", "canary_fail", "canary_pause", "canary_validate"])
+        ops += [K.cmd(cm, histgen.NS, histgen.EDS), histgen.rec_eds(), histgen.rec_all_ers(rng), histgen.rec_eds()]
+        ops += histgen.rollout_ops(rng, 2)
+        c["ops"] = ops
+        wprop.bump(stats, "command on a re-used replica set (active before, canary now)", cm)
+        out.append(c)
+    # (e) the long way round to a canary that carries a Canary-Failed condition which is False: B fails as a canary; the
+    # canary strategy is taken out and B's template applied again (B becomes active at once: its failed mark is reset to
+    # False); the strategy comes back, A is rolled out and validated, then B's template again: B is the canary once more
+    for _ in range(6 if tier == "quick" else 80):
+        out.append(refailed_canary_history(rng, stats))
     return out
+
+
+def refailed_canary_history(rng, stats):
+    n = rng.choice([3, 4])
+    c = histgen.gen_history(rng, None, n=n, canary=True, length=0)
+    e = [o for o in c["objects"] if o["kind"] == "ExtendedDaemonSet"][0]
+    can = e["spec"]["strategy"]["canary"]
+    can.pop("duration", None)
+    can.pop("noRestartsDuration", None)
+    can["validationMode"] = "manual"
+    can["replicas"] = 1
+    e["spec"]["strategy"]["rollingUpdate"]["maxUnavailable"] = 1
+    e["spec"]["strategy"]["rollingUpdate"]["maxParallelPodCreation"] = 1
+    ED = lambda cmd: histgen.edit("ExtendedDaemonSet", histgen.NS, histgen.EDS, cmd)
+    step = lambda: [histgen.rec_eds(), histgen.rec_all_ers(rng), histgen.rec_eds()]
+    ops = c["ops"] + histgen.rollout_ops(rng, 3)                     # A (img:1) active
+    ops += [ED("image:img:2")] + histgen.rollout_ops(rng, 2)        # B canary
+    ops += [K.cmd("canary_fail", histgen.NS, histgen.EDS)] + step()  # B failed, template back to img:1
+    ops += [ED("canary:off"), ED("image:img:2")] + step() + histgen.rollout_ops(rng, 1)   # B active at once (no canary strategy)
+    ops += [ED("canary:on"), ED("image:img:1")] + histgen.rollout_ops(rng, 2)             # A canary of B
+    ops += [K.cmd("canary_validate", histgen.NS, histgen.EDS)] + step()                   # A active, B still owns pods
+    ops += [ED("image:img:2")] + histgen.rollout_ops(rng, 2)                              # B canary again
+    cm = rng.choice(["canary_fail", "canary_fail", "canary_pause"])
+    ops += [K.cmd(cm, histgen.NS, histgen.EDS)] + step() + histgen.rollout_ops(rng, 2)
+    c["ops"] = ops
+    wprop.bump(stats, "command on a canary that failed, was active and is the canary again", cm)
+    return c
 
 
 def nontrivial(c, r):
